@@ -51,7 +51,7 @@ theorem C19_created_fixed (ops : List Op) : ∀ (s : State) (j : Nat) (e : Ent),
     exact ⟨e', h', hc'.trans hc⟩
 
 example : ∃ s, State.open 1000 true = .ok s ∧
-    (run s [.create .block 0 .good, .setClock 2000, .call 1 none .m_definition .good]).ents[1]?.map
+    (run s [.create .block 0 .good, .setClock 2000, .call 1 none .m_definition ⟨.returns, .self⟩]).ents[1]?.map
       (fun e => (readStamp e.created, readStamp e.updated)) = some (.ok (some 1000), .ok (some 2000)) :=
   ⟨_, rfl, by decide +kernel⟩
 
@@ -181,7 +181,7 @@ theorem C19_monotone_from_open (clock : Int) (auto : Bool) (s0 : State) (hc : In
   exact C19_monotone ops (run s0 pre) hi ha j e u h hu
 
 example : ∃ s, State.open 1000 true = .ok s ∧
-    Admissible s [.create .block 0 .good, .setClock 2000, .call 1 none .m_type .good] :=
+    Admissible s [.create .block 0 .good, .setClock 2000, .call 1 none .m_type ⟨.returns, .self⟩] :=
   ⟨_, rfl, rfl, trivial, rfl, ⟨by decide +kernel, by decide +kernel⟩, rfl, trivial, trivial⟩
 
 /-! ## switch off: only force calls change a time stamp -/
@@ -221,7 +221,7 @@ theorem C19_auto_off (ops : List Op) : ∀ (s : State), s.auto = false →
     exact ⟨e', h', hc.trans hsame.1, hu.trans hsame.2⟩
 
 example : ∃ s, State.open 1000 false = .ok s ∧
-    (run s [.create .block 0 .good, .setClock 2000, .call 1 none .m_definition .good]).ents[1]?.map
+    (run s [.create .block 0 .good, .setClock 2000, .call 1 none .m_definition ⟨.returns, .self⟩]).ents[1]?.map
       (fun e => readStamp e.updated) = some (.ok (some 1000)) :=
   ⟨_, rfl, by decide +kernel⟩
 
@@ -242,23 +242,56 @@ def listed : List Mem :=
    .m_link_type, .m_data, .m_append_set_dimension, .m_append_sampled_dimension,
    .m_append_range_dimension, .m_append_range_dimension_using_self]
 
-/-- decidable form of `C19_listed_setters_touch_self` -/
+/-- decidable form of `C19_listed_setters_touch_self` / `C19_listed_refusal_unstamped`: over the
+path-sensitive outcome lists regenerated from the source -/
 def listedOk : Bool :=
   Kind.all.all fun k => listed.all fun m =>
     match resolve k.cls m with
     | none => true
-    | some mb => mb.touch == .self && (mb.kind == .setter || mb.kind == .method)
+    | some mb => (mb.kind == .setter || mb.kind == .method) &&
+        mb.outcomes.all (fun o => match o.exit with
+          | .returns => o.touch == .self
+          | .raises => o.touch == .none) &&
+        mb.outcomes.any (fun o => o.exit == .returns)
 
-/-- (table) for every entity kind and every listed attribute that the kind has, the definition
-Python resolves carries the auto-update idiom on the object itself.  Evaluated on the table
-regenerated from the source: a setter that loses the idiom breaks this theorem. -/
+theorem listedOk_true : listedOk = true := by decide +kernel
+
+/-- (table, path-sensitive) for every entity kind and every listed attribute that the kind has, the
+definition Python resolves is a setter / method in which **every path that returns normally has run
+the auto-update idiom on the object itself** — an early `return` that skips the idiom, or an idiom
+under a condition, is an outcome `⟨.returns, .none⟩` and breaks this theorem — and it has a
+returning path at all.  Evaluated on the outcome lists regenerated from the source by
+`harness/extract/setters.py`. -/
 theorem C19_listed_setters_touch_self (k : Kind) (m : Mem) (hm : m ∈ listed) (mb : Member)
     (h : resolve k.cls m = some mb) :
-    mb.touch = .self ∧ (mb.kind = .setter ∨ mb.kind = .method) := by
-  have hall : listedOk = true := by decide +kernel
+    (mb.kind = .setter ∨ mb.kind = .method) ∧
+    (∀ o ∈ mb.outcomes, o.exit = .returns → o.touch = .self) ∧
+    (∃ o ∈ mb.outcomes, o.exit = .returns) := by
+  have hall := listedOk_true
   simp only [listedOk, List.all_eq_true] at hall
   have := hall k (Kind.mem_all k) m hm
   rw [h] at this
+  simp only [Bool.and_eq_true, Bool.or_eq_true, beq_iff_eq, List.all_eq_true, List.any_eq_true] at this
+  obtain ⟨⟨hk, hout⟩, hex⟩ := this
+  refine ⟨hk, ?_, hex⟩
+  intro o ho hret
+  have := hout o ho
+  rw [hret] at this
+  simpa using this
+
+/-- (table, path-sensitive) a listed setter that refuses its argument — any path that ends in an
+exception — has not run the idiom before: nothing after the idiom can still refuse the call -/
+theorem C19_listed_refusal_unstamped (k : Kind) (m : Mem) (hm : m ∈ listed) (mb : Member)
+    (h : resolve k.cls m = some mb) :
+    ∀ o ∈ mb.outcomes, o.exit = .raises → o.touch = .none := by
+  have hall := listedOk_true
+  simp only [listedOk, List.all_eq_true] at hall
+  have := hall k (Kind.mem_all k) m hm
+  rw [h] at this
+  simp only [Bool.and_eq_true, List.all_eq_true] at this
+  intro o ho hr
+  have := this.1.2 o ho
+  rw [hr] at this
   simpa using this
 
 /-- every listed attribute exists on some entity kind (the table theorem is not vacuous), and
@@ -268,21 +301,24 @@ example : listed.all (fun m => Kind.all.any fun k => (resolve k.cls m).isSome) =
 example : (Kind.all.filter fun k => !(listed.any fun m => (resolve k.cls m).isSome)) = [.file] := by
   decide +kernel
 
-/-- with the switch on, assigning a listed attribute of a live entity (accepted value, clock
-within 1970…2100) makes that entity report the current time as its update time, leaves its
-creation time alone, and leaves every other entity exactly as it was -/
-theorem C19_auto_on_local (s : State) (e : Nat) (ent : Ent) (m : Mem) (mb : Member)
+/-- with the switch on, assigning a listed attribute of a live entity (clock within 1970…2100),
+**whichever returning path of the setter the call takes**, makes that entity report the current
+time as its update time, leaves its creation time alone, and leaves every other entity exactly as
+it was -/
+theorem C19_auto_on_local (s : State) (e : Nat) (ent : Ent) (m : Mem) (mb : Member) (o : Outcome)
     (he : s.ents[e]? = some ent) (halive : ent.alive = true) (hauto : s.auto = true)
-    (hm : m ∈ listed) (hres : resolve ent.kind.cls m = some mb) (hclock : InRange s.clock) :
-    (step s (.call e none m .good)).2 = .done ∧
-    (∃ e', (step s (.call e none m .good)).1.ents[e]? = some e' ∧
+    (hm : m ∈ listed) (hres : resolve ent.kind.cls m = some mb) (ho : o ∈ mb.outcomes)
+    (hret : o.exit = .returns) (hclock : InRange s.clock) :
+    (step s (.call e none m o)).2 = .done ∧
+    (∃ e', (step s (.call e none m o)).1.ents[e]? = some e' ∧
         readStamp e'.updated = .ok (some s.clock) ∧ e'.created = ent.created) ∧
-    (∀ j, j ≠ e → (step s (.call e none m .good)).1.ents[j]? = s.ents[j]?) := by
-  obtain ⟨htouch, hkind⟩ := C19_listed_setters_touch_self ent.kind m hm mb hres
+    (∀ j, j ≠ e → (step s (.call e none m o)).1.ents[j]? = s.ents[j]?) := by
+  obtain ⟨hkind, htouch, _⟩ := C19_listed_setters_touch_self ent.kind m hm mb hres
+  have htouch := htouch o ho hret
   obtain ⟨v, hv, _⟩ := timeToStr_ok_of_inRange s.clock hclock
   have hal : aliveAt s e = some ent := by simp [aliveAt, he, halive]
-  have hstep : step s (.call e none m .good) = ({ s with ents := setUpdated s.ents e v }, .done) := by
-    rcases hkind with hk | hk <;> simp [step, hal, hres, hk, hauto, htouch, hv]
+  have hstep : step s (.call e none m o) = ({ s with ents := setUpdated s.ents e v }, .done) := by
+    rcases hkind with hk | hk <;> simp [step, hal, hres, hk, hauto, htouch, hv, ho, hret]
   rw [hstep]
   refine ⟨rfl, ?_, ?_⟩
   · refine ⟨{ ent with updated := some v }, by simp [getElem?_setUpdated, he], ?_, rfl⟩
@@ -293,9 +329,14 @@ theorem C19_auto_on_local (s : State) (e : Nat) (ent : Ent) (m : Mem) (mb : Memb
     | none => rfl
     | some x => simp [Ne.symm hj]
 
-example : resolve Kind.property.cls .m_unit = some ⟨.Property, .m_unit, .setter, .self, true⟩ ∧
-    resolve Kind.multiTag.cls .m_definition = some ⟨.Entity, .m_definition, .setter, .self, true⟩ ∧
-    resolve Kind.feature.cls .m_data = some ⟨.Feature, .m_data, .setter, .self, true⟩ := by
+example : resolve Kind.property.cls .m_unit =
+      some ⟨.Property, .m_unit, .setter, [⟨.returns, .self⟩, ⟨.raises, .none⟩]⟩ ∧
+    resolve Kind.multiTag.cls .m_definition =
+      some ⟨.Entity, .m_definition, .setter, [⟨.returns, .self⟩, ⟨.raises, .none⟩]⟩ ∧
+    resolve Kind.multiTag.cls .m_extents =
+      some ⟨.MultiTag, .m_extents, .setter, [⟨.returns, .self⟩, ⟨.raises, .none⟩]⟩ ∧
+    resolve Kind.feature.cls .m_data =
+      some ⟨.Feature, .m_data, .setter, [⟨.returns, .self⟩, ⟨.raises, .none⟩]⟩ := by
   decide +kernel
 
 /-- no operation of any kind (listed or not, accepted or refused, switch on or off) changes a
@@ -312,17 +353,34 @@ theorem C19_only_target (s : State) (op : Op) (j : Nat) (e : Ent) (h : s.ents[j]
   | forcedU t w hop _ => subst hop; simp [Op.target] at hne
   | forcedC t w hop _ => subst hop; simp [Op.target] at hne
 
-/-- a call or creation whose argument is refused by the validation that precedes the write leaves
-the whole state as it was (whatever the switch says) -/
-theorem C19_refused_unchanged (s : State) (e : Nat) (via : Option Cls) (m : Mem) (k : Kind) :
-    (step s (.call e via m .refusedEarly)).1 = s ∧ (step s (.create k e .refusedEarly)).1 = s := by
+/-- a call that ends — by an exception or a `return` — on a path on which the idiom has not run,
+and a refused creation, leave the whole state as it was (whatever the switch says) -/
+theorem C19_refused_unchanged (s : State) (e : Nat) (via : Option Cls) (m : Mem) (k : Kind)
+    (o : Outcome) (ho : o.touch = .none) :
+    (step s (.call e via m o)).1 = s ∧ (step s (.create k e .refusedEarly)).1 = s := by
   constructor
-  · simp only [step]
+  · simp only [step, ho]
     repeat' split
     all_goals rfl
   · simp only [step]
     repeat' split
     all_goals rfl
+
+/-- a listed setter that refuses its argument (any raising path the source has) leaves every time
+stamp as it was: the refusal comes before the idiom on every path -/
+theorem C19_listed_refused_unchanged (s : State) (e : Nat) (k : Kind) (m : Mem) (mb : Member)
+    (o : Outcome) (hm : m ∈ listed) (hres : resolve k.cls m = some mb) (ho : o ∈ mb.outcomes)
+    (hr : o.exit = .raises) :
+    (step s (.call e none m o)).1 = s :=
+  (C19_refused_unchanged s e none m .block o
+    (C19_listed_refusal_unstamped k m hm mb hres o ho hr)).1
+
+example : ∃ s, State.open 1000 true = .ok s ∧
+    (step (run s [.create .block 0 .good, .setClock 2000])
+        (.call 1 none .m_type ⟨.raises, .none⟩)).2 = .refused ∧
+    (step (run s [.create .block 0 .good, .setClock 2000])
+        (.call 1 none .m_type ⟨.returns, .none⟩)).2 = .bad :=
+  ⟨_, rfl, by decide +kernel, by decide +kernel⟩
 
 /-! ## forcing a time stamp and reading it back, also after re-opening -/
 
